@@ -884,6 +884,13 @@ impl PreparedStatement {
         ps.set_partitioner_name(partitioner);
         Ok(ps)
     }
+
+    /// The handle a `CachingSession` cache hit hands out for this statement: stored unconfigured, configured again.
+    #[doc(hidden)]
+    pub fn verif_through_cache_handle(&self) -> PreparedStatement {
+        self.make_unconfigured_handle()
+            .make_configured_handle(self.config.clone(), self.page_size)
+    }
 }
 
 #[cfg(test)]
